@@ -15,8 +15,10 @@ import (
 	"fmt"
 	"io"
 	"log"
+	"net/http/httptest"
 	"strconv"
 	"strings"
+	"sync"
 	"testing"
 	"time"
 	"unicode/utf8"
@@ -971,6 +973,19 @@ func (c15NoThrottle) CheckBruteforce(ctx context.Context, client string, action 
 	return func(ctx context.Context) {}, nil
 }
 
+// a test client with a generous timeout for the welcome message (the suite's
+// NewTestClient allows one second, too little on a loaded machine)
+func c15Client(t *testing.T, server *httptest.Server, hub *Hub) *TestClient {
+	ctx, cancel := context.WithTimeout(context.Background(), 20*time.Second)
+	defer cancel()
+	client := NewTestClientContext(ctx, t, server, hub)
+	msg, err := client.RunUntilMessage(ctx)
+	if err != nil || msg.Type != "welcome" {
+		t.Fatalf("no welcome message: %v %+v", err, msg)
+	}
+	return client
+}
+
 type c15Live struct {
 	sid    uint64
 	priv   string
@@ -1057,7 +1072,7 @@ func c15RunHub(t *testing.T, u *c15Universe, c *c15Case, st *c15RunStats) (trace
 	for _, o := range c.Ops {
 		switch o.K {
 		case "register":
-			client := NewTestClient(t, server, hub)
+			client := c15Client(t, server, hub)
 			conns = append(conns, client)
 			if err := client.SendHello(testDefaultUserId); err != nil {
 				t.Fatal(err)
@@ -1147,7 +1162,7 @@ func c15RunHub(t *testing.T, u *c15Universe, c *c15Case, st *c15RunStats) (trace
 					found = hub.GetSessionByPublicId(s)
 				}
 			} else {
-				client := NewTestClient(t, server, hub)
+				client := c15Client(t, server, hub)
 				conns = append(conns, client)
 				if err := client.SendHelloResume(s); err != nil {
 					t.Fatal(err)
@@ -1248,6 +1263,99 @@ func c15GenHubCase(r *vrng, id int) *c15Case {
 	}
 	c.Ops = append(c.Ops, c15Op{K: "dump"})
 	return c
+}
+
+// Concurrent lookups on one hub with small caches (a test, not a proof): while
+// goroutines look up live ids, re-spellings, foreign ids and ids of the other
+// role, every session returned must own exactly the string that was presented,
+// and every live id must be found.
+func c15Stress(t *testing.T, sink *caseSink, seed int64, rounds int) {
+	hub, _, _, server := CreateHubForTest(t)
+	hub.throttler = c15NoThrottle{}
+	hub.decodeCaches = []*LruCache{NewLruCache(3), NewLruCache(2)}
+	ctx, cancel := context.WithTimeout(context.Background(), 60*time.Second)
+	defer cancel()
+	type entry struct {
+		s       string
+		private bool
+		sid     uint64 // 0: must not be found
+	}
+	var pool []entry
+	var clients []*TestClient
+	for i := 0; i < 6; i++ {
+		client := c15Client(t, server, hub)
+		clients = append(clients, client)
+		if err := client.SendHello(testDefaultUserId); err != nil {
+			t.Fatal(err)
+		}
+		hello, err := client.RunUntilHello(ctx)
+		if err != nil {
+			t.Fatal(err)
+		}
+		sess := c15HubSession(hub, hello.Hello.SessionId)
+		sid := sess.Data().Sid
+		priv, pub := hello.Hello.ResumeId, hello.Hello.SessionId
+		pool = append(pool, entry{priv, true, sid}, entry{pub, false, sid},
+			entry{priv + "\n", true, 0}, entry{pub + "\n", false, 0}, entry{priv, false, 0}, entry{pub, true, 0},
+			entry{string(c15Mut{K: "respell", N: 1}.apply([]byte(priv))), true, 0},
+			entry{string(c15Mut{K: "respell", N: 1}.apply([]byte(pub))), false, 0})
+		fd := &SessionIdData{Sid: sid, BackendId: "foreign"}
+		f1, _ := hub.cookie.EncodePrivate(fd)
+		f2, _ := hub.cookie.EncodePublic(fd)
+		pool = append(pool, entry{f1, true, 0}, entry{f2, false, 0})
+	}
+	// respell with N = 1 leaves an id without padding (or whose free bits are already 1) unchanged
+	for i := range pool {
+		for j := range pool {
+			if i != j && pool[i].s == pool[j].s && pool[i].private == pool[j].private && pool[j].sid != 0 {
+				pool[i].sid = pool[j].sid
+			}
+		}
+	}
+	var wg sync.WaitGroup
+	var mu sync.Mutex
+	bad := 0
+	for w := 0; w < 8; w++ {
+		wg.Add(1)
+		go func(w int) {
+			defer wg.Done()
+			r := newVrng(seed, uint64(5000+w))
+			for i := 0; i < rounds; i++ {
+				e := pool[r.intn(len(pool))]
+				var got Session
+				if e.private {
+					got = hub.GetSessionByResumeId(e.s)
+				} else {
+					got = hub.GetSessionByPublicId(e.s)
+				}
+				ok := (got == nil && e.sid == 0) || (got != nil && e.sid != 0 && got.Data().Sid == e.sid &&
+					((e.private && got.PrivateId() == e.s) || (!e.private && got.PublicId() == e.s)))
+				if !ok {
+					mu.Lock()
+					bad++
+					if bad == 1 {
+						sink.violation(200000+i, fmt.Sprintf("concurrent lookups: the lookup of %q (private=%v) returned %v, expected session %d (0 = none)", e.s, e.private, got, e.sid),
+							map[string]interface{}{"scenario": "c15Stress", "string": e.s, "private": e.private})
+					}
+					mu.Unlock()
+				}
+			}
+		}(w)
+	}
+	wg.Wait()
+	for _, cl := range clients {
+		cl.SendBye() // nolint
+	}
+	for _, e := range pool {
+		if e.sid != 0 {
+			c15WaitGone(hub, e.sid)
+		}
+	}
+	for _, cl := range clients {
+		cl.conn.Close()
+	}
+	sink.stats.Histogram["stress_lookups"] = 8 * rounds
+	sink.stats.Histogram["stress_wrong_answers"] = bad
 }
 
 // ---- base64: the decoder of lib/B64.v against encoding/base64 on short strings ----------------------
@@ -1361,6 +1469,11 @@ func TestVerifC15(t *testing.T) {
 		}
 		sink.extraFile("b64", c15B64Table(newVrng(env.seed, 77777), n))
 		sink.stats.Histogram["b64_table_rows"] = n
+		rounds := 2000
+		if env.thorough() {
+			rounds = 60000
+		}
+		t.Run("stress", func(t *testing.T) { c15Stress(t, sink, env.seed, rounds) })
 	}
 	sink.stats.Notes = append(sink.stats.Notes,
 		"codec cases: one data value minted as private and public id under key set 0 and under another key set; every single-bit flip of the first/last bytes and of random positions, truncations, extensions, CR/LF and other bytes inserted, every trailing-bit re-spelling, standard alphabet, no padding, re-encoding, reversal, other role, other keys, twin key set",
